@@ -45,9 +45,11 @@ func (pattern glob) Match(str string) bool {
 	var starIdx, matchIdx int = -1, -1
 
 	for j < len(str) {
-		if i < len(pattern) && (pattern[i] == str[j] || pattern[i] == '\\' && i+1 < len(pattern) && pattern[i+1] == str[j]) {
+		// a backslash followed by a character stands for that character, '*' is never a literal
+		esc := i+1 < len(pattern) && pattern[i] == '\\'
+		if i < len(pattern) && pattern[i] != '*' && (!esc && pattern[i] == str[j] || esc && pattern[i+1] == str[j]) {
 			// characters match or if there's an escaped character that matches
-			if pattern[i] == '\\' {
+			if esc {
 				// skip the escape character
 				i++
 			}
